@@ -166,20 +166,20 @@ def classify_v6(rec):
     # --- UpdateStaticLease does not look whether the new address is in use
     if act == "UpdateStatic" and why == "state" and reply.get("k") == "ok" and not (newprob - {"bitmap:+%d" % i for i in range(len(pool))}
                                                                                     - {"bitmap:-%d" % i for i in range(len(pool))}):
-        new = (a["m"], a["a"], 3, a["h"])
+        new = (a["m"], a["a"], -1, a["h"])
         mine = [l for l in src if l[0] == a["m"]]
         others = [l for l in src if l[0] != a["m"] and l[1] == a["a"]]
         if new in ls and len(mine) == 1 and others and _ms(ls) == _ms([l for l in src if l != mine[0]] + [new]):
             return "v6-updatestatic-onto-leased-address"
 
     if act == "AddStatic" and why == "state":
-        new = (a["m"], a["a"], 3, a["h"])
+        new = (a["m"], a["a"], -1, a["h"])
         gone = _minus(src, ls)
         came = _minus(ls, src)
-        evictable = all(g[2] < 2 and (g[0] == a["m"] or g[1] == a["a"]) for g in gone)
+        evictable = all(g[2] >= 0 and (g[0] == a["m"] or g[1] == a["a"]) for g in gone)
         # --- a refused reservation has already removed dynamic leases (from memory only)
         if reply.get("k") == "err" and gone and not came and evictable and diskstale and not (newprob - {"bitmap:-%d" % i for i in range(len(pool))}):
-            if any(l[2] == 3 and (l[0] == a["m"] or l[1] == a["a"]) for l in src):
+            if any(l[2] == -1 and (l[0] == a["m"] or l[1] == a["a"]) for l in src):
                 return "v6-addstatic-error-after-mutation"
         # --- rmDynamicLease skips the element swapped into the place of a removed one
         if reply.get("k") == "ok" and came == [new] and gone and evictable and not newprob:
